@@ -13,7 +13,7 @@ vars == <<ds, opt, X, heap, fcache, rcache, nid, returned, last, hist>>
 \* the request menu: single and multiple fields, every input, whole-array / pooled / sliced
 MenuFields == {<<"obs">>, <<"fcst">>, <<"obs", "fcst">>}
 Menu == {[fields |-> f, inp |-> i, axis |-> a[1], idx |-> a[2]] :
-           f \in MenuFields, i \in 1..X.n, a \in {<<"all", 1>>, <<"no", 1>>, <<"time", 1>>, <<"location", 2>>}}
+           f \in MenuFields, i \in 1..X.n, a \in {<<"all", 1>>, <<"no", 1>>, <<"time", 1>>, <<"time", 2>>, <<"location", 1>>, <<"location", 2>>}}
 MenuOk(r) == r.axis = "all" \/ r.idx <= NumSlices(X, r.axis)
 
 Usable(g) == LET D == DsOf(g) IN ~EmptySelection(D, g.opt) /\ SomeObs(D)
